@@ -1,5 +1,6 @@
 import Gaftools.Drv.Sort
 import Gaftools.Drv.Gaf
+import Gaftools.Drv.Gfa
 /-! The correspondence driver: one JSON object per line in, one per line out. -/
 open Lean Gaftools.Drv
 
@@ -12,6 +13,9 @@ def dispatch (op : String) (j : Json) : Except String Json :=
   | "gaf.parse" => Gaf.opParse j
   | "phase.file" => Gaf.opPhase j
   | "stat.run" => Gaf.opStat j
+  | "walk.extract" => Gfa.opExtract j
+  | "graph.algos" => Graph.opAlgos j
+  | "graph.history" => Graph.opHistory j
   | _ => throw s!"unknown op {op}"
 
 partial def loop (h : IO.FS.Stream) (out : IO.FS.Stream) : IO Unit := do
